@@ -90,59 +90,59 @@ func (r *verifRec) first(kind int) *verifCall {
 var verifDynamics = [7]op.DynamicSign{op.UnknownDynamicSign, op.Pianissimo, op.Piano, op.MezzoPiano, op.MezzoForte, op.Forte, op.Fortissimo}
 
 // verifSymbolicArgs builds a midiArgs in an arbitrary state: every cell has an arbitrary
-// value and an arbitrary "needs emitting" flag.
-func verifSymbolicArgs() (a *midiArgs, kl, ka int, kminor bool) {
+// value and an arbitrary "needs emitting" flag. With focus != 0 only the focused setting's
+// flag is arbitrary, the others are clean (their values stay arbitrary).
+func verifSymbolicArgs(focus int) (a *midiArgs, kl, ka int, kminor bool) {
 	key, kl, ka, kminor := crdx.SymbolicListedKey("st.key.")
 	bpm := vf.NondetUint("st.bpm")
 	num, den := vf.NondetUint("st.num"), vf.NondetUint("st.den")
-	dyn := vf.NondetIntRange("st.dyn", 1, 6)
+	dyn := vf.NondetInt("st.dyn")
+	vf.Assume(1 <= dyn)
+	vf.Assume(dyn <= 6)
+	dirty := func(name string, f int) bool {
+		if focus != 0 && focus != f {
+			return false
+		}
+		return vf.NondetBool(name)
+	}
 	a = &midiArgs{
-		bpm:      util.NewOpt(op.BPM(bpm)),
-		meter:    util.NewOpt(op.Meter{Rat: util.NewRat(num, den)}),
-		velocity: util.NewOpt(verifDynamics[dyn]),
-		key:      util.NewOpt(key),
-		meta:     util.NewOpt(op.Meta(map[string]string{})),
-	}
-	// arbitrary flags: consume the initial "updated" state or not
-	if !vf.NondetBool("st.bpm.dirty") {
-		a.bpm.WhenUpdated(func(op.BPM) {})
-	}
-	if !vf.NondetBool("st.meter.dirty") {
-		a.meter.WhenUpdated(func(op.Meter) {})
-	}
-	if !vf.NondetBool("st.key.dirty") {
-		a.key.WhenUpdated(func(op.Key) {})
-	}
-	if !vf.NondetBool("st.vel.dirty") {
-		a.velocity.WhenUpdated(func(op.DynamicSign) {})
-	}
-	if !vf.NondetBool("st.meta.dirty") {
-		a.meta.WhenUpdated(func(op.Meta) {})
+		bpm:      util.ZzOptState(op.BPM(bpm), dirty("st.bpm.dirty", 1)),
+		meter:    util.ZzOptState(op.Meter{Rat: util.NewRat(num, den)}, dirty("st.meter.dirty", 2)),
+		velocity: util.ZzOptState(verifDynamics[dyn], dirty("st.vel.dirty", 4)),
+		key:      util.ZzOptState(key, dirty("st.key.dirty", 3)),
+		meta:     util.ZzOptState(op.Meta(map[string]string{}), dirty("st.meta.dirty", 5)),
 	}
 	return
 }
+
+func verifAnd(a, b bool) bool { return vf.Ite(a, b, false) }
+func verifOr(a, b bool) bool  { return vf.Ite(a, true, b) }
 
 // VerifC07SettingsStep: one instance from an arbitrary settings state: an event is emitted
 // for a setting iff the instance sets it or it was still pending; every emitted event carries
 // the value in force; the settings persist.
 func VerifC07SettingsStep() {
 	vf.Summarise("github.com/berquerant/crd/zz_verif/spec.*")
+	vf.Summarise("github.com/berquerant/crd/zz_verif/crdx.*")
 	vf.Summarise("(github.com/berquerant/crd/op.Key).Semitone")
-	a, kl, ka, kminor := verifSymbolicArgs()
-	bpmDirty, meterDirty, keyDirty := a.bpm, a.meter, a.key // same cells; flags read below through behaviour
-	_ = bpmDirty
-	_ = meterDirty
-	_ = keyDirty
+	focus := vf.Param("C07.focus", 0)
+	a, kl, ka, kminor := verifSymbolicArgs(focus)
 	oldBPM, oldMeter, oldKeyL, oldKeyA, oldKeyM := a.bpm.Unwrap(), a.meter.Unwrap(), kl, ka, kminor
 	oldVel := a.getVelocity()
 	var inst op.Instance
-	hasBPM := vf.NondetIntRange("in.hasBPM", 0, 1) == 1
-	hasMeter := vf.NondetIntRange("in.hasMeter", 0, 1) == 1
-	hasKey := vf.NondetIntRange("in.hasKey", 0, 1) == 1
-	hasVel := vf.NondetIntRange("in.hasVel", 0, 1) == 1
+	has := func(name string, f int) bool {
+		if focus != 0 && focus != f {
+			return false
+		}
+		return vf.NondetIntRange(name, 0, 1) == 1
+	}
+	hasBPM, hasMeter, hasKey, hasVel := has("in.hasBPM", 1), has("in.hasMeter", 2), has("in.hasKey", 3), has("in.hasVel", 4)
 	newBPM := op.BPM(vf.NondetUint("in.bpm"))
 	newMeter := op.Meter{Rat: util.NewRat(vf.NondetUint("in.num"), vf.NondetUint("in.den"))}
-	newDyn := verifDynamics[vf.NondetIntRange("in.dyn", 1, 6)]
+	nd := vf.NondetInt("in.dyn")
+	vf.Assume(1 <= nd)
+	vf.Assume(nd <= 6)
+	newDyn := verifDynamics[nd]
 	newKey, nl, na, nminor := crdx.SymbolicListedKey("in.key.")
 	if hasBPM {
 		inst.BPM = &newBPM
@@ -164,8 +164,8 @@ func VerifC07SettingsStep() {
 	a.writeWhenUpdated(rec)
 
 	// tempo
-	wantTempo := hasBPM || wasBPMDirty
-	vf.Assert("tempo-emitted-iff-set-or-pending", (rec.count(vcTempo) == 1) == wantTempo && rec.count(vcTempo) <= 1)
+	wantTempo := verifOr(hasBPM, wasBPMDirty)
+	vf.Assert("tempo-emitted-iff-set-or-pending", rec.count(vcTempo) == vf.Ite(wantTempo, 1, 0))
 	forceBPM := oldBPM
 	if hasBPM {
 		forceBPM = newBPM
@@ -175,19 +175,19 @@ func VerifC07SettingsStep() {
 	}
 	vf.Assert("tempo-persists", a.bpm.Unwrap() == forceBPM)
 	// meter
-	wantMeter := hasMeter || wasMeterDirty
-	vf.Assert("meter-emitted-iff-set-or-pending", (rec.count(vcMeter) == 1) == wantMeter && rec.count(vcMeter) <= 1)
+	wantMeter := verifOr(hasMeter, wasMeterDirty)
+	vf.Assert("meter-emitted-iff-set-or-pending", rec.count(vcMeter) == vf.Ite(wantMeter, 1, 0))
 	forceMeter := oldMeter
 	if hasMeter {
 		forceMeter = newMeter
 	}
 	if c := rec.first(vcMeter); c != nil {
-		vf.Assert("meter-event-carries-value-in-force", c.num == uint8(forceMeter.Num) && c.den == uint8(forceMeter.Denom))
+		vf.Assert("meter-event-carries-value-in-force", verifAnd(c.num == uint8(forceMeter.Num), c.den == uint8(forceMeter.Denom)))
 	}
 	vf.Assert("meter-persists", a.meter.Unwrap() == forceMeter)
 	// key signature
-	wantKey := hasKey || wasKeyDirty
-	vf.Assert("key-emitted-iff-set-or-pending", (rec.count(vcKey) == 1) == wantKey && rec.count(vcKey) <= 1)
+	wantKey := verifOr(hasKey, wasKeyDirty)
+	vf.Assert("key-emitted-iff-set-or-pending", rec.count(vcKey) == vf.Ite(wantKey, 1, 0))
 	fl, fa, fm := oldKeyL, oldKeyA, oldKeyM
 	if hasKey {
 		fl, fa, fm = nl, na, nminor
@@ -196,10 +196,10 @@ func VerifC07SettingsStep() {
 		sig := spec.Signature(fl, fa, fm)
 		vf.Assert("key-signature-mode", c.isMajor == !fm)
 		vf.Assert("key-signature-count", int(c.cnt) == vf.Ite(sig < 0, -sig, sig))
-		vf.Assert("key-signature-flat-or-sharp", sig == 0 || c.isFlat == (sig < 0))
+		vf.Assert("key-signature-flat-or-sharp", verifOr(sig == 0, c.isFlat == (sig < 0)))
 	}
 	k := a.getKey()
-	vf.Assert("key-in-force-persists", crdx.LetterOf(k.Name) == fl && crdx.AccNumOf(k.Accidental) == fa && k.Minor == fm)
+	vf.Assert("key-in-force-persists", verifAnd(verifAnd(crdx.LetterOf(k.Name) == fl, crdx.AccNumOf(k.Accidental) == fa), k.Minor == fm))
 	// dynamics
 	wantVel := oldVel
 	if hasVel {
@@ -207,7 +207,7 @@ func VerifC07SettingsStep() {
 	}
 	vf.Assert("dynamic-in-force-sets-velocity", a.getVelocity() == wantVel)
 	// nothing else, and a second call emits nothing (settings are emitted once)
-	vf.Assert("no-note-events-from-settings", rec.count(vcNote)+rec.count(vcRest)+rec.count(vcClose) == 0)
+	vf.Assert("only-setting-events", len(rec.calls) == rec.count(vcTempo)+rec.count(vcMeter)+rec.count(vcKey))
 	rec2 := &verifRec{}
 	a.writeWhenUpdated(rec2)
 	vf.Assert("settings-emitted-once", len(rec2.calls) == 0)
